@@ -121,8 +121,17 @@ def run_case(spec, workdir):
             tiles.append(toast.toast_tile_for_point(p[0], float(la), float(lo) % (2 * np.pi), coordsys=cs))
     else:
         tiles = [toast.create_single_tile(Pos(*p), coordsys=cs) for p in pos_list]
+    # every tile is also evaluated in the OTHER coordinate system right afterwards, in this same process: a grid
+    # remembered per position (and not per coordinate system) would be served stale
+    ocs = CS.ASTRONOMICAL if pl else CS.PLANETARY
     for t in tiles:
         check_tile(t, pl, cs, R, spec["nsub"], probs)
+        if t.pos.n >= 1:
+            t2 = toast.create_single_tile(t.pos, coordsys=ocs)
+            p2 = []
+            check_tile(t2, not pl, ocs, R, max(5, spec["nsub"] // 8), p2)
+            probs += ["[same position, other coordinate system, same process] " + x for x in p2]
+            check_tile(t, pl, cs, R, 3, probs)
         if len(probs) > 8:
             break
     both = {bool(t.increasing) for t in tiles}
